@@ -293,6 +293,10 @@ def _yaml_constraints(constraints: Iterable[RelationProtocol]):
         if hasattr(r, "expression"):
 
             constraints_dict[r.name] = {"type": "intention", "function": r.expression}
+            # The expression may use functions from an external python file
+            source_file = getattr(getattr(r, "function", None), "source_file", None)
+            if source_file is not None:
+                constraints_dict[r.name]["source"] = str(source_file)
         else:
             # fallback to extensional constraint
             variables = [v.name for v in r.dimensions]
